@@ -3240,21 +3240,19 @@ func (n *RegisteredNexthop) serialize(version uint8, software Software) ([]byte,
 	buf[0] = n.connected // stream_putc(s, (connected) ? 1 : 0);
 	pos := 1
 	if version == 6 && software.name == "frr" && software.version >= 8.2 {
-		buf[1] = n.resolveViaDef
-		binary.BigEndian.PutUint16(buf[1:3], uint16(SafiUnicast)) // stream_putw(s, PREFIX_FAMILY(p));
+		buf[1] = n.resolveViaDef                                  // stream_putc(s, (resolve_via_def) ? 1 : 0);
+		binary.BigEndian.PutUint16(buf[2:4], uint16(SafiUnicast)) // stream_putw(s, safi);
 		pos += 3
 	}
 	// Address Family (2 bytes)
 	binary.BigEndian.PutUint16(buf[pos:pos+2], n.Family) // stream_putw(s, PREFIX_FAMILY(p));
-	// pos += 2
 	// Prefix Length (1 byte)
 	addrByteLen, err := addressByteLength(uint8(n.Family))
 	if err != nil {
 		return nil, err
 	}
 
-	buf[3] = byte(addrByteLen * 8) // stream_putc(s, p->prefixlen);
-	// pos += 1
+	buf[pos+2] = byte(addrByteLen * 8) // stream_putc(s, p->prefixlen);
 	// Prefix (variable)
 	switch n.Family {
 	case uint16(syscall.AF_INET):
@@ -3349,6 +3347,9 @@ func (b *NexthopRegisterBody) decodeFromBytes(data []byte, version uint8, softwa
 		b.Nexthops = append(b.Nexthops, nh)
 
 		offset += nh.len()
+		if version == 6 && software.name == "frr" && software.version >= 8.2 {
+			offset += 3 // resolve_via_default (1 byte) + safi (2 bytes), added in frr8.2
+		}
 		if len(data) < offset {
 			break
 		}
